@@ -207,6 +207,7 @@ type gen struct {
 	tp      *tape.Tape
 	imports map[string]bool
 	tparams []string
+	side    uint64 // seed of decisions added later (drawn apart from tp, so older corpora keep their shape)
 }
 
 func (g *gen) pick(xs []string) string { return xs[g.tp.Int(len(xs))] }
@@ -498,6 +499,26 @@ func (g *gen) iface(name string, shared *embed, extra []string) (string, Iface) 
 		fmt.Fprintf(&b, "\t%s\n", e)
 		out.Methods++
 	}
+	if st := tape.New(tape.MixS(g.side, "helper-named:"+name)); st.Int(16) == 0 && !taken["Load"] {
+		// an interface method named exactly like a helper moq generates under
+		// -with-resets (for another method, or for the whole mock). At the time of
+		// writing moq's output for these does not compile with -with-resets (the
+		// cell is dropped and counted); without the flag they are ordinary methods.
+		fmt.Fprintf(&b, "\tLoad(key string) int\n\t%s\n", []string{"ResetLoadCalls()", "ResetCalls()", "ResetLoadCalls()"}[st.Int(3)])
+		out.Methods += 2
+	}
+	if st := tape.New(tape.MixS(g.side, "self-ref:"+name)); len(g.tparams) == 0 && !taken["Chain"] {
+		// builder-style methods: the interface itself as the only result, or among
+		// the parameters and results
+		switch st.Int(6) {
+		case 0:
+			fmt.Fprintf(&b, "\tChain(cond string) %s\n", name)
+			out.Methods++
+		case 1:
+			fmt.Fprintf(&b, "\tChain(other %s, more ...%s) (%s, error)\n", name, name, name)
+			out.Methods++
+		}
+	}
 	b.WriteString("}\n")
 	return b.String(), out
 }
@@ -508,7 +529,7 @@ func Generate(spec Spec) *Corpus {
 	all := AllFlags()
 	for pi := 0; pi < spec.NPkgs; pi++ {
 		tp := tape.New(tape.Mix(tape.MixS(spec.Seed, "corpus"), uint64(pi)))
-		g := &gen{tp: tp, imports: map[string]bool{}}
+		g := &gen{tp: tp, imports: map[string]bool{}, side: tape.Mix(tape.MixS(spec.Seed, "corpus-side"), uint64(pi))}
 		p := &Pkg{ID: fmt.Sprintf("p%02d", pi), Name: fmt.Sprintf("p%02d", pi)}
 		var body strings.Builder
 		ni := 1 + tp.Int(3)
